@@ -37,6 +37,7 @@ func alphaMain(args []string) {
 		out.Write(b)
 		out.WriteByte('\n')
 	}
+	sbuf, qbuf := make([]byte, 256), make([]byte, 256)
 	for {
 		line, err := in.ReadBytes('\n')
 		if len(line) > 1 {
@@ -75,7 +76,18 @@ func alphaMain(args []string) {
 								ev["spanic"] = fmt.Sprint(e)
 							}
 						}()
+						var again []interface{}
+						reused := len(s) <= len(sbuf) && len(q) <= len(qbuf)
+						if reused {
+							s2, q2 := sbuf[:len(s)], qbuf[:len(q)]
+							copy(s2, s)
+							copy(q2, q)
+							again = segsPairs(gts.Search(gts.New(nil, nil, s2), gts.New(nil, nil, q2)))
+						}
 						ev["search"] = segsPairs(gts.Search(gts.New(nil, nil, s), gts.New(nil, nil, q)))
+						if reused && fmt.Sprint(again) != fmt.Sprint(ev["search"]) {
+							ev["search"] = again
+						}
 					}()
 					func() {
 						defer func() {
@@ -83,7 +95,18 @@ func alphaMain(args []string) {
 								ev["mpanic"] = fmt.Sprint(e)
 							}
 						}()
+						var again []interface{}
+						reused := len(s) <= len(sbuf) && len(q) <= len(qbuf)
+						if reused {
+							s2, q2 := sbuf[:len(s)], qbuf[:len(q)]
+							copy(s2, s)
+							copy(q2, q)
+							again = segsPairs(gts.Match(gts.New(nil, nil, s2), gts.New(nil, nil, q2)))
+						}
 						ev["match"] = segsPairs(gts.Match(gts.New(nil, nil, s), gts.New(nil, nil, q)))
+						if reused && fmt.Sprint(again) != fmt.Sprint(ev["match"]) {
+							ev["match"] = again
+						}
 					}()
 					emit(ev)
 				}
